@@ -19,7 +19,9 @@ CHECKS = {
             "quota < 2**40", "DESIGN.md §6 C17"),
     "C01": ("SIM", "Hypothesis-generated (program, schedule, crash points, timer firings) run on loky's real code over a "
                    "simulated kernel; oracle = history invariant (quiescent, every call returned, every future done, nothing "
-                   "left running after release); known findings excluded by construction and replayed",
+                   "left running after release, no exception escaping a management thread); systematic single-preemption / "
+                   "PCT / timer-burst sweeps over generated small programs and a seed corpus; known findings excluded by "
+                   "construction and replayed; primitive conformance self-test of the SIM kernel against the real OS objects",
             "Bounded liveness by generated-schedule search: thousands of distinct (program, schedule, fault) cases per run, "
             "each run to quiescence under a deterministic scheduler that owns every blocking point, timer and crash "
             "placement. Exploration only; it is the right level because the property quantifies over schedules and crash "
@@ -29,7 +31,8 @@ CHECKS = {
             "DESIGN.md §2, §6 C01"),
     "C02": ("SIM", "Hypothesis-generated crash placement (k-th worker, n-th scheduling point, cause) + schedules on the "
                    "simulated kernel; oracle = snapshot-at-death history invariant (kept outcomes, broken-pool errors naming "
-                   "exit codes, refused probe submit, all workers dead and joined)",
+                   "exit codes, refused probe submit, all workers dead and joined); plus generated fault plans (kill/exit at 7 worker "
+                   "fault points x n-th hit x cause) on real processes with LOKY_VERIF=1",
             "Every generated death point x cause x schedule is run to quiescence and the whole-pool outcome is compared "
             "with the statement; the histogram death_at:* shows the program-point classes reached. Exploration.",
             "SIM kernel model; real signals/descendant killing are not simulated (kill_process_tree is substituted); "
@@ -60,8 +63,9 @@ CHECKS = {
                    "alive, all joined",
             "Logical promptness (returns although tasks never end), totality and explicitness checked at quiescence over "
             "generated pool states and schedules. Exploration.",
-            "SIM part only: kill_process_tree is substituted (descendant killing / psutil-less path are not exercised here); "
-            "SIM kernel model", "DESIGN.md §6 C06"),
+            "SIM part: kill_process_tree is substituted; REAL part: generated task trees (subprocesses, nested executors, finished and "
+            "running tasks), with and without psutil, fault point kill_tree.listed; every recorded pid must be gone",
+            "DESIGN.md §6 C06, §11"),
     "C07": ("SIM", "Hypothesis cases with worker timeouts down to 0 and generated memory readings; idle-timer expiry is a "
                    "scheduler action (timer-eager / PCT / preemption-bounded / random-walk policies); oracle = never broken, "
                    "exactly-once execution with own outcome, exit codes 0, all futures done",
@@ -86,7 +90,8 @@ CHECKS = {
                    "prior work completes, live workers == new and min(old,new) previous pids kept when undisturbed",
             "Termination (exact livelock detection on the polling loops), work preservation and survivor identity over "
             "generated timer/death placements inside _resize. Exploration.",
-            "SIM kernel model; livelock verdict = only pollers runnable and nothing they poll can change", "DESIGN.md §6 C10"),
+            "SIM kernel model; livelock verdict = only pollers runnable and nothing they poll can change; REAL part: the resizing thread "
+            "is delayed at fault points (resize.*) while workers idle out or a new worker dies at start-up", "DESIGN.md §6 C10, §11"),
     "C14": ("SIM", "Hypothesis-generated actor programs on loky's Lock/RLock/Semaphore/BoundedSemaphore/Condition/Event over "
                    "the simulated named-semaphore table, actors spread over simulated processes (pickled copies), timed waits "
                    "fired anywhere by cyclic random-walk / timer-eager / PCT schedules; oracles = occupancy invariant, "
@@ -193,11 +198,11 @@ def main():
             "add_only": True,
         },
         "engines": [
-            {"name": "PURE", "path": "props/", "serves_properties": ["C03", "C11", "C15", "C16", "C17", "C19"],
+            {"name": "PURE", "path": "props/", "serves_properties": ["C03", "C11", "C15", "C16", "C17", "C18", "C19"],
              "kind_free_text": "Hypothesis / exhaustive grids in-process on functions with substituted inputs"},
-            {"name": "SIM", "path": "sim/", "serves_properties": ["C01", "C02", "C03", "C04", "C05", "C06", "C07", "C08", "C09", "C10", "C14", "C15", "C18", "C19"],
+            {"name": "SIM", "path": "sim/", "serves_properties": ["C01", "C02", "C03", "C04", "C05", "C06", "C07", "C08", "C09", "C10", "C14", "C19"],
              "kind_free_text": "deterministic simulation: loky's real code objects on a simulated kernel; schedule, clock and crash points are Hypothesis-generated"},
-            {"name": "REAL", "path": "real/", "serves_properties": ["C06", "C12", "C13", "C18", "C19", "C20"],
+            {"name": "REAL", "path": "real/", "serves_properties": ["C02", "C06", "C10", "C11", "C12", "C13", "C15", "C18", "C19", "C20"],
              "kind_free_text": "generated programs on real processes with env-guarded fault points and /proc observation"},
         ],
         "checks": checks,
